@@ -73,6 +73,7 @@ func (l *Linter) lintBlockStatement(block *ast.BlockStatement, ctx *context.Cont
 		func(v ast.Statement, c *context.Context) {
 			l.ignore.SetupStatement(v.GetMeta())
 			defer l.ignore.TeardownStatement(v.GetMeta())
+			defer l.enterIncluded(v)()
 			l.lint(v, c)
 		}(stmt, ctx)
 	}
